@@ -66,8 +66,70 @@ def close(a, b, rtol=1e-9, atol=1e-12) -> bool:
     return abs(a - b) <= rtol * max(abs(a), abs(b)) + atol
 
 
+class _PersistentDriver:
+    """One long-lived driver process per harness process (start-up decodes the generated tables: ~0.25 s)."""
+
+    def __init__(self):
+        self.p = None
+        self.lock = __import__("threading").Lock()
+
+    def start(self):
+        self.p = subprocess.Popen([str(DRIVER)], stdin=subprocess.PIPE, stdout=subprocess.PIPE, bufsize=0)
+
+    def call(self, lines):
+        import threading
+        with self.lock:
+            if self.p is None or self.p.poll() is not None:
+                self.start()
+            p = self.p
+            data = ("\n".join(lines) + "\n").encode()
+            err = []
+
+            def feed():
+                try:
+                    p.stdin.write(data)
+                    p.stdin.flush()
+                except Exception as e:  # noqa
+                    err.append(e)
+            t = threading.Thread(target=feed, daemon=True)
+            t.start()
+            out = []
+            f = p.stdout
+            buf = b""
+            need = len(lines)
+            while len(out) < need:
+                chunk = f.read(65536) if need - len(out) > 50 else f.read(4096)
+                if not chunk:
+                    break
+                buf += chunk
+                parts = buf.split(b"\n")
+                buf = parts.pop()
+                out += parts
+            t.join()
+            if len(out) != need or buf:
+                try:
+                    p.kill()
+                except Exception:  # noqa
+                    pass
+                self.p = None
+                raise InfraError(f"driver answered {len(out)} lines for {need} operations ({err[:1]})")
+            return [l.decode().split() for l in out]
+
+
+_DRIVER = _PersistentDriver()
+
+
 def run_driver(lines: list[str]) -> list[list[str]]:
     """Send operations to the Lean model driver (native executable), return token lists."""
+    if not lines:
+        return []
+    if any("\n" in l for l in lines):
+        raise InfraError("newline inside a driver operation")
+    return _DRIVER.call(lines)
+
+
+def run_driver_once(lines: list[str]) -> list[list[str]]:
+    """Same, in a fresh driver process (used by the sharded variant)."""
     if not lines:
         return []
     p = subprocess.run(
@@ -93,7 +155,7 @@ def run_driver_sharded(lines: list[str], shards: int = 16) -> list[list[str]]:
     k = min(shards, n)
     bounds = [n * i // k for i in range(k + 1)]
     with ThreadPoolExecutor(k) as ex:
-        parts = list(ex.map(lambda i: run_driver(lines[bounds[i] : bounds[i + 1]]), range(k)))
+        parts = list(ex.map(lambda i: run_driver_once(lines[bounds[i] : bounds[i + 1]]), range(k)))
     return [x for p in parts for x in p]
 
 
@@ -195,8 +257,15 @@ def lake_build(targets: list[str], regen=None) -> BuildResult:
     fcntl.flock(lock, fcntl.LOCK_EX)
     try:
         regen_ops_index()
+        regen_error = None
         if regen is not None:
-            res.regen = regen()
+            try:
+                res.regen = regen()
+            except Exception as e:  # noqa
+                # the translator could not turn what /repo contains now into the model's data (changed shape, missing
+                # file …): the tie is broken, which is not by itself a violation — the check goes on with the data modules
+                # of the last successful regeneration and searches for a failing input
+                regen_error = f"{type(e).__name__}: {str(e)[:300]}"
         p = subprocess.run(
             ["lake", "build", *targets], cwd=LEAN, capture_output=True, text=True
         )
@@ -213,6 +282,11 @@ def lake_build(targets: list[str], regen=None) -> BuildResult:
                     res.failed_theorems.append(th)
             if not res.failed_modules:
                 res.failed_modules.append("?")
+        if regen_error is not None:
+            res.ok = False
+            res.failed_modules.append("NssVerif.Gen.(regeneration)")
+            res.failed_theorems.append("regeneration of the Gen data modules from /repo: " + regen_error)
+            res.log += "\nregeneration failed: " + regen_error
     finally:
         fcntl.flock(lock, fcntl.LOCK_UN)
         lock.close()
